@@ -505,6 +505,23 @@ fn one_case(ctx: &Ctx, case: u64, l: &mut Local) {
                 let third = pipeline::issue_scenario(&s);
                 fill_salts(&[]);
                 l.evals += 2;
+                // and on ONE reused issuer instance: the same claims under another strategy first
+                let third = match third {
+                    Ok(c) if case % 2 == 0 => {
+                        let other_kind = if s.cfg.strat.is_custom() { *r.pick(&[gen::StratKind::Custom10, gen::StratKind::Custom80, gen::StratKind::AllLevels]) } else { gen::StratKind::Custom40 };
+                        let other_strat = gen::gen_strategy(&mut r, &s.u, other_kind);
+                        let mut reused = api::new_issuer(s.cfg.alg, 0, s.explicit_alg);
+                        fill_salts(&salts);
+                        let _ = pipeline::issue_with(&mut reused, &s.u, &other_strat, s.cfg.holder, false, s.cfg.fmt);
+                        fill_salts(&salts);
+                        let again = pipeline::issue_with(&mut reused, &s.u, &s.strat, s.cfg.holder, false, s.cfg.fmt);
+                        fill_salts(&[]);
+                        l.evals += 2;
+                        l.count("reissue.on-a-reused-issuer-after-another-strategy");
+                        again.or(Ok(c))
+                    }
+                    x => x,
+                };
                 if let Ok(c) = third {
                     let same = c.parts.disclosures == issued.parts.disclosures && payload_seg(&c.parts.jwt) == payload_seg(&issued.parts.jwt);
                     if same {
